@@ -55,7 +55,7 @@ ASSUMPTIONS = [
     "when scenarios start and stop; C14 judges what overrides read given that)",
     "most control runs happen in the same process (the first control of a scene precedes every "
     "fault on that scene); the `fresh` rule compares a control with a brand-new interpreter "
-    "(quick: about one machine in four; thorough: every machine that reaches the rule)",
+    "(quick: about one machine in six; thorough: every machine that reaches the rule)",
     "runs are process independent for these programs (no requirement mentions two random "
     "values, the id-ordering defect of C15 is out of reach)",
 ]
@@ -310,7 +310,7 @@ class Driver:
 
                     def sets(k):
                         return any(o == i and p == prop and
-                                   ("Alt" if p == "behavior" else val) == got
+                                   (f"Alt{k}" if p == "behavior" else val) == got
                                    for o, specs in prog["subs"][k]["ovr"] for p, val in specs)
 
                     kind = "behavior" if prop == "behavior" else "property"
@@ -571,10 +571,10 @@ def make_machine(tier, on_finish, stop_at=None):
             self._do("recompile", {})
 
         @precondition(lambda self: self.d.scenes and self.d.freshes < 1 and self.d.fired > 0)
-        @rule(scene=st.integers(0, 2), seed=st.integers(0, 2), go=st.integers(0, 3))
+        @rule(scene=st.integers(0, 2), seed=st.integers(0, 2), go=st.integers(0, 5))
         def fresh(self, scene, seed, go):
             if tier == "quick" and go != 0:
-                return  # a new interpreter costs seconds: one machine in four
+                return  # a new interpreter costs seconds: about one machine in six
             self._do("fresh", {"scene": scene, "seed": seed})
 
         def teardown(self):
@@ -674,7 +674,7 @@ def setup_process():
           and ev(prog, ["Main", "Sub0"], 0, "foo") == (101, 0)
           and ev(prog, ["Main", "Sub0", "Sub1"], 0, "foo") == (201, 1)
           and ev(prog, ["Main", "Sub0", "Sub1"], 0, "bar") == (112, 0)
-          and ev(prog, ["Main", "Sub1"], 1, "behavior") == ("Alt", 1)
+          and ev(prog, ["Main", "Sub1"], 1, "behavior") == ("Alt1", 1)
           and ev(prog, ["Main"], 1, "behavior") == (None, None)
           and c14_gen.statement_rank(prog, 0, 0, "bar") == 1
           and c14_gen.statement_rank(prog, 0, 0, "foo") == 0)
